@@ -4,6 +4,7 @@ import (
 	"encoding/hex"
 	"fmt"
 	"io"
+	"math/big"
 	"math/rand"
 	"sort"
 	"strconv"
@@ -593,13 +594,13 @@ func sqlLookups(c *rig.Ctx, x *sqlrig.Session, def *tableDef, ix *idxDef, qt, as
 			if v == sqlrig.Null {
 				continue
 			}
-			n, err := strconv.ParseInt(v, 10, 64)
-			if err != nil {
+			n, ok := new(big.Int).SetString(v, 10)
+			if !ok {
 				continue
 			}
-			run(fmt.Sprintf("%s > %d", qid(col), n), func(w string) bool {
-				m, err := strconv.ParseInt(w, 10, 64)
-				return err == nil && m > n
+			run(fmt.Sprintf("%s > %s", qid(col), n.String()), func(w string) bool {
+				m, ok := new(big.Int).SetString(w, 10)
+				return ok && m.Cmp(n) > 0
 			})
 			st.sqlRange++
 			break
@@ -1309,7 +1310,11 @@ func c25(c *rig.Ctx) {
 		"index of the working root is read through doltdb/durable (tuples decoded with the index schema) and compared with the " +
 		"entries the monitor derives from SELECT * and the definition in SHOW CREATE TABLE; at commit points every distinct value is " +
 		"also looked up with FORCE INDEX; at the end every commit of every branch is checked. A program is distinct by its CREATE " +
-		"TABLE statement and its operation counts")
+		"TABLE statement and its operation counts. Second part: one table per value representation the index writers compare " +
+		"(varbinary, binary, blob prefix, varchar bin/_ci, char _ci, text prefix, ints, decimal, double, float, datetime(6), timestamp, " +
+		"date, time, year, enum, set; keyed, keyless and unique variants) with indexes (x), (x,o), (o,x); statements change exactly one " +
+		"indexed column of one row: value->NULL, NULL->value, same value, other value, collation-equal value, the same via INSERT..ON " +
+		"DUPLICATE KEY UPDATE, an unindexed column only; plus foreign keys ON DELETE/UPDATE SET NULL/CASCADE with an indexed child column")
 	c.Assume("prefix lengths: the statement does not say bytes or characters; either derivation is accepted (counter c25.prefix_char_rule_needed)")
 	c.Assume("statements may legally fail (duplicate keys, schema conflicts); failures are only counted")
 	box := startBox(c, "c25")
@@ -1322,6 +1327,10 @@ func c25(c *rig.Ctx) {
 		if c.Violations() > 25 {
 			break
 		}
+	}
+	var sc *scStats
+	if c.Violations() <= 25 {
+		sc = c25singleColumn(c, box, st)
 	}
 	c.Count("c25.roots_checked", st.roots)
 	c.Count("c25.commit_roots_checked", st.commits)
@@ -1354,4 +1363,10 @@ func c25(c *rig.Ctx) {
 	c.Require(kinds["cherry-pick"] > 0 && kinds["revert"] > 0 && kinds["stash-pop"] > 0, "cherry-pick / revert / stash pop never succeeded")
 	c.Require(kinds["modify-column"] > 0 && kinds["drop-pk"]+kinds["add-pk"] > 0 && kinds["rename-index"] > 0, "DDL kinds not exercised")
 	c.Require(st.plansIndexed > 0, "forced-index lookups never used an index")
+	if sc != nil {
+		c.Require(sc.binNull > 0 && sc.byKind["value-to-null"] > 0 && sc.byKind["null-to-value"] > 0 && sc.byKind["same-value"] > 0 &&
+			sc.byKind["collation-equal-value"] > 0 && sc.byKind["upsert-value-to-null"] > 0 && sc.byKind["unindexed-column-only"] > 0,
+			"single-indexed-column transitions not all exercised")
+		c.Require(len(sc.byFamily) == len(scFamilies) && len(sc.fkActs) >= 6, "not every type family / foreign-key action exercised")
+	}
 }
